@@ -246,7 +246,7 @@ def rule_write(ctx):
                 a = [src(x) for x in t.value.args]
                 if a == [f"{conn}.{userf}", rest] and not t.value.keywords:
                     ok = True
-            if isinstance(t, ast.Compare) and len(t.ops) == 1 and isinstance(t.ops[0], ast.Eq) and src(t.comparators[0]).endswith("GetUserResponse.OK") \
+            if isinstance(t, ast.Compare) and len(t.ops) == 1 and isinstance(t.ops[0], ast.Eq) and dsrc(p, t.comparators[0], fn).endswith("GetUserResponse.OK") \
                     and isinstance(t.left, ast.Name):
                 # the compared state is the first component of the awaited get_user(...) result
                 for k, v, x in local_defs(fn, t.left.id):
@@ -338,7 +338,7 @@ def rule_mgr(ctx):
     gu = p.method("MemoryUserManager", "get_user")
     n_ok = 0
     for n in walk_no_nested(gu):
-        if isinstance(n, ast.Assign) and src(n.value).endswith("GetUserResponse.OK"):
+        if isinstance(n, ast.Assign) and dsrc(p, n.value, gu).endswith("GetUserResponse.OK"):
             n_ok += 1
             guards = all_guards(p, n, gu)
             ok = any(pol and isinstance(t, ast.Compare) and len(t.ops) == 1 and isinstance(t.ops[0], ast.Is)
